@@ -940,6 +940,14 @@ func (fr *Frame) instr(st *State, b *ssa.BasicBlock, in ssa.Instruction) (bool, 
 			*st = *vc.mergeStates([]*State{yes, no})
 		}
 	case *ssa.Go:
+		if vc.contract != nil && vc.contract.DetachedGo {
+			// `detachedgo`: the goroutine is assumed to talk to this function by signalling only
+			// (closing/cancelling/sending): the memory is havoced here, the function's own call log
+			// (what its sequential code calls, in which order) is not the goroutine's to change
+			vc.assume("goroutines started by " + vc.fullName + " are assumed not to write memory the function reads afterwards (detachedgo: signalling only; schedules are outside the model)")
+			vc.havocAll(st)
+			break
+		}
 		vc.note("%s: go statement: outside the subset", fr.pos(in.Pos()))
 		st.taint = True
 		vc.havocAll(st)
